@@ -288,6 +288,36 @@ func addressOne(c *chk, in string) {
 
 // ---- fixed-point decimals ------------------------------------------------------------------
 
+// fixedPrecisions: every precision of the fixed-width types plus both sides of the
+// implementation's table of powers of ten (16/17) and of the uint64 range (19/20).
+var fixedPrecisions = []int{0, 1, 2, 3, 4, 5, 6, 7, 8, 9, 15, 16, 17, 18, 19, 20, 21, 30, 38}
+
+// refFixedParse is the definition of a fixed-point decimal, written without any
+// power of ten: the digits of s with the point removed and the fraction padded to
+// p digits. ok=false: s is not of the plain form [-]digits[.digits] with at most p
+// fraction digits (nothing is demanded then).
+func refFixedParse(s string, p int) (*big.Int, bool) {
+	neg := strings.HasPrefix(s, "-")
+	t := strings.TrimPrefix(s, "-")
+	ip, fp, hasDot := strings.Cut(t, ".")
+	if ip == "" || (hasDot && fp == "") || len(fp) > p {
+		return nil, false
+	}
+	for _, ch := range ip + fp {
+		if ch < '0' || ch > '9' {
+			return nil, false
+		}
+	}
+	v, ok := new(big.Int).SetString(ip+fp+strings.Repeat("0", p-len(fp)), 10)
+	if !ok {
+		return nil, false
+	}
+	if neg {
+		v.Neg(v)
+	}
+	return v, true
+}
+
 func fixedStringOne(c *chk, in string) {
 	// input: "<precision>|<string>"
 	const sec = "fixedn-strings"
@@ -302,6 +332,12 @@ func fixedStringOne(c *chk, in string) {
 	v, err := fixedn.FromString(s, p)
 	st.Calls.Inc()
 	st.Evals.Inc()
+	if ref, ok := refFixedParse(s, p); ok {
+		st.Evals.Inc()
+		if err != nil || v.Cmp(ref) != 0 {
+			c.bad(sec, "fixedn-value:FromString-vs-definition", in, rank, fmt.Sprintf("%q with precision %d is %s by definition, FromString gives %v err=%v", s, p, ref, v, err))
+		}
+	}
 	if err == nil {
 		st.Nontrivial.Inc() // the string parses
 		// (the value v itself is an input of the fixedn-values section, where
@@ -357,6 +393,10 @@ func fixedValueOne(c *chk, in string) {
 	st.Evals.Inc()
 	if err != nil || back.Cmp(x) != 0 {
 		c.bad2(sec, "fixedn-roundtrip:FromString(ToString(x,p),p)", fmt.Sprintf("prec=%d:x=%s", p, x), in, rank, fmt.Sprintf("x=%s precision=%d formats to %q, which parses to %v err=%v", x, p, s, back, err))
+	}
+	st.Evals.Inc()
+	if ref, ok := refFixedParse(s, p); !ok || ref.Cmp(x) != 0 {
+		c.bad2(sec, "fixedn-value:ToString-vs-definition", fmt.Sprintf("prec=%d:x=%s", p, x), in, rank, fmt.Sprintf("x=%s precision=%d formats to %q, which is %v by definition (plain form: %v)", x, p, s, ref, ok))
 	}
 	if p != 8 || !x.IsInt64() {
 		return
@@ -479,13 +519,12 @@ func init() {
 	})
 	register(&section{
 		name: "fixedn-strings",
-		rule: "every string of length <= 4 (thorough: 6) over {0,1,9,.,-} x precisions 0..8: no panic; a string that parses formats to a canonical string that parses to the same value and is stable; Fixed8FromString agrees with FromString(s,8); non-trivial = the string parses",
+		rule: "every string of length <= 4 (thorough: 6) over {0,1,9,.,-} x precisions 0..8 and 9,15..21,30,38 (both sides of the implementation's power table): no panic; a string of the plain form [-]digits[.digits] parses to the value an independent reference (digits shifted by the precision) gives; a string that parses formats to a canonical string that parses to the same value and is stable; Fixed8FromString agrees with FromString(s,8); non-trivial = the string parses",
 		one:  fixedStringOne,
 		shards: func(c *chk) []func() {
 			maxLen := vk.Pick(c.r, 4, 6)
 			var out []func()
-			for p := 0; p <= 8; p++ {
-				p := p
+			for _, p := range fixedPrecisions {
 				out = append(out, func() {
 					fixedStringOne(c, fmt.Sprintf("%d|", p))
 					if p == 8 {
@@ -501,12 +540,11 @@ func init() {
 	})
 	register(&section{
 		name: "fixedn-values",
-		rule: "every value produced by parsing the strings above, its negation, 0, +-1, +-(10^p-1), +-10^p, +-(10^p+1) and the ends of the int64 range, x precisions 0..8: FromString(ToString(x,p),p) == x; for p=8 also Fixed8 String/JSON/binary round trips; non-trivial = x != 0",
+		rule: "every value produced by parsing the strings above, its negation, 0, +-1, +-(10^p-1), +-10^p, +-(10^p+1) and the ends of the int64 range, x precisions 0..8 and 9,15..21,30,38: FromString(ToString(x,p),p) == x and the independent reference parses ToString(x,p) to x; for p=8 also Fixed8 String/JSON/binary round trips; non-trivial = x != 0",
 		one:  fixedValueOne,
 		shards: func(c *chk) []func() {
 			var out []func()
-			for p := 0; p <= 8; p++ {
-				p := p
+			for _, p := range fixedPrecisions {
 				out = append(out, func() {
 					vals := vk.NewSet()
 					var list []*big.Int
